@@ -733,6 +733,44 @@ let do_lmc id ins outs =
         (Printf.sprintf "after simultaneous responses announcing %s the profile's last-modified register holds %s; every sequential order of these responses leaves %d" stamps fin want)
   | _ -> verdict "lmc" id "diff" "malformed-line" ""
 
+(* ---- engine refresh ----  rfr <id> <ipmap> <op;op;...> => <out;out;...>
+   one discovery.Hosts object, the file changing under it: W:<content>:<mtime s>, A:<ms>, L:<name>;
+   model: Refresh.refresh instantiated with read_hosts (theorem table_catches_up) *)
+let do_rfr id ins outs =
+  match ins, outs with
+  | [ipmap; opss], [outss] ->
+    let strtok s = bytes_of_token s in
+    let entries = if ipmap = "" then [] else List.map (fun e -> match String.split_on_char ':' e with
+        | [t; c; b] -> (strtok t, strtok c, strtok b) | _ -> failwith "ipmap") (String.split_on_char ';' ipmap) in
+    let canon tok = (match List.find_opt (fun (t, _, _) -> t = tok) entries with
+        | Some (_, c, _) -> if c = [] then None else Some c | None -> None) in
+    let parse_f content = read_hosts canon content in
+    let st = ref { r_tbl = parse_f []; r_info = None; r_expires = Z0 } in
+    let now = ref 1 and file = ref None in
+    let os = ref (String.split_on_char ';' outss) in
+    let problems = ref [] and nl = ref 0 and nchanged = ref 0 in
+    List.iteri (fun i o ->
+        match String.split_on_char ':' o with
+        | ["W"; c; mt] ->
+          let content = strtok c in
+          incr nchanged;
+          file := Some { s_stat = { f_mtime = z_of_int (int_of_string mt); f_size = z_of_int (List.length content) }; s_content = content }
+        | ["A"; ms] -> now := !now + int_of_string ms * 1000000
+        | ["L"; nm] ->
+          incr nl;
+          st := refresh parse_f !st (z_of_int !now) !file;
+          let want = (match hosts_lookup_host !st.r_tbl (strtok nm) with
+              | [] -> "-" | l -> String.concat "," (List.map (fun b -> hex_of_string (string_of_bytes b)) l)) in
+          (match !os with
+           | got :: rest -> os := rest;
+             if got <> want then problems := Printf.sprintf "op %d (lookup %s at +%d ms): impl=%s model=%s" i (string_of_bytes (strtok nm)) (!now / 1000000) got want :: !problems
+           | [] -> problems := "fewer outputs than lookups" :: !problems)
+        | _ -> problems := ("bad op " ^ o) :: !problems) (String.split_on_char ';' opss);
+    let tag = Printf.sprintf "w%d/l%d" (min !nchanged 4) (min !nl 9) in
+    if !problems = [] then verdict "rfr" id "ok" tag ""
+    else verdict "rfr" id "spec:C18,C12" tag (String.concat "; " (List.rev !problems))
+  | _ -> verdict "rfr" id "diff" "malformed-line" ""
+
 (* ---- engine racestress ----  race <i> stress <secs> => none | <frames> <count>
    no model output to compare: a report by the Go race detector whose stacks touch /repo
    code is a failure of C15 on the implementation itself *)
@@ -1113,6 +1151,7 @@ let () =
       | "sid" :: id :: rest -> let (i, o) = split_arrow rest in do_sid id i o
       | "e2e" :: id :: rest -> let (i, o) = split_arrow rest in do_e2e id i o
       | "lmc" :: id :: rest -> let (i, o) = split_arrow rest in do_lmc id i o
+      | "rfr" :: id :: rest -> let (i, o) = split_arrow rest in do_rfr id i o
       | "cis" :: id :: rest -> let (i, o) = split_arrow rest in do_cis id i o
       | "ci" :: id :: rest -> let (i, o) = split_arrow rest in do_ci id i o
       | "hdr" :: id :: rest -> let (i, o) = split_arrow rest in do_hdr id i o
